@@ -24,8 +24,10 @@ PROP = "C01"
 def settings(rng):
     """(eps, suc, tol) grid, including eps >> 100 tol and tolerances below the pipeline's accuracy"""
     r = rng.random()
-    if r < 0.05:
+    if r < 0.03:
         return 0.0, 1.0, 1e-6                 # no capitalisation, no rescaling
+    if r < 0.08:
+        return 0.0, float(rng.choice([1.0, 0.9, 1 - 1e-4])), float(rng.choice([1e-7, 1e-8, 1e-9]))     # eps = 0 (falsy, legal), tight tolerance
     if r < 0.10:
         return 1e-4, 0.5, 1e-6                # strong rescaling
     if r < 0.45:
@@ -170,6 +172,14 @@ def run(tier, seed):
                 ctx.count("session:out-of-domain-request-returned")
             except Exception:  # noqa
                 ctx.count("session:out-of-domain-request-raised")
+    # legal falsy settings at degrees where the pipeline is accurate to 1e-12: eps = 0 (no capitalisation) under a tight tolerance
+    for d in (1, 2, 3, 4, 5, 6):
+        for so in ("Wx", "Wz"):
+            p, kind = gen_poly(rng, d)
+            if kind in ("infeasible", "near-feasible"):
+                p = [0.4 * x / max(1e-9, max(abs(v) for v in p)) for x in p]
+            eps, suc, tol = 0.0, float(rng.choice([1.0, 0.95])), float(rng.choice([1e-8, 1e-9]))
+            run_one(ctx, A, C, p, kind + "/eps=0", eps, suc, tol, so, None, {"poly": p, "kind": kind + "/eps=0", "eps": eps, "suc": suc, "tolerance": tol, "signal_operator": so})
     ctx.assumptions = [
         "which inputs the floating-point pipeline completes on is explored, not proved; every RETURNED result is judged by the proven validator",
         "cos/sin of the returned phases enclosed at %d bits (QSP/Proofs/Trig.lean)" % P.BITS,
